@@ -88,6 +88,10 @@ pub struct GuestSpec {
     /// the initial stack pointer lies this many bytes below the top of the stack region (multiple of 4)
     #[serde(default)]
     pub stack_off: u16,
+    /// how the exit address is reached: 0 = JMP @aa:24, 1 = falling through, 2 = BRA, 3 = JMP @ER0 (ER0 is the exit
+    /// code and therefore the exit address in that case), 4 = BSR (pushes a return address first)
+    #[serde(default)]
+    pub exit_style: u8,
 }
 
 #[derive(Clone, Debug)]
@@ -402,9 +406,30 @@ impl GuestSpec {
             block_end.push(a.here());
         }
         let main_end = a.here();
-        // exit: JMP @exit ; exit: BRA .
-        let exit = a.here() + 4;
-        a.jmp_abs(exit);
+        // exit: <transfer to exit> ; exit: BRA .
+        let exit = match self.exit_style {
+            1 => a.here(),
+            2 | 4 => {
+                let e = a.here() + 2;
+                if self.exit_style == 2 {
+                    a.bra8(0);
+                } else {
+                    a.bsr8(0);
+                }
+                e
+            }
+            3 => {
+                let e = a.here() + 8;
+                a.mov_l_imm(0, e);
+                a.jmp_ern(0);
+                e
+            }
+            _ => {
+                let e = a.here() + 4;
+                a.jmp_abs(e);
+                e
+            }
+        };
         a.bra8(-2);
         if a.here() > lay.code_limit {
             return Err("main code does not fit".into());
